@@ -54,6 +54,7 @@ func c08Cases(tier string, seed int64) []core.Case {
 			cb := cb
 			cases = append(cases, core.Case{ID: fmt.Sprintf("slow-callback/%s/maxpend=%d", cb, mp), Run: func(ctx *core.Ctx) core.Result { return c08SlowCallback(ctx.Seed, mp, cb) }})
 		}
+		cases = append(cases, core.Case{ID: fmt.Sprintf("stalled-client/maxpend=%d", mp), Run: func(ctx *core.Ctx) core.Result { return c08StalledClient(ctx.Seed, mp) }})
 		cases = append(cases, core.Case{ID: fmt.Sprintf("slow-fiddestroy/maxpend=%d", mp), Run: func(ctx *core.Ctx) core.Result { return c08SlowDestroy(ctx.Seed, mp) }})
 	}
 	reps := 2
@@ -661,6 +662,9 @@ func c08SlowCallback(seed int64, maxpend int, cb string) core.Result {
 			}
 		case "SrvReqProcess", "SrvReqRespond":
 			slow = &wire.Msg{Type: wire.Tstat, Fid: e.root}
+			if round%2 == 1 {
+				slow.Fid = 9999 // a request the framework itself refuses ("unknown fid") also goes through the respond hook
+			}
 		}
 		s.Ops.SetCallbackGate(cb, gate)
 		dialed := make(chan *CConn, 1)
@@ -737,6 +741,56 @@ func c08SlowCallback(seed int64, maxpend int, cb string) core.Result {
 		res.Sig(fmt.Sprintf("slowcallback|%s|mp=%d|free=%d", cb, maxpend, len(free)))
 	}
 	res.Sample(map[string]interface{}{"scenario": "request blocked inside " + cb + " while other requests must progress", "maxpend": maxpend})
+	e.c.Hangup()
+	other.c.Hangup()
+	return res
+}
+
+// c08StalledClient: one connection's client stops reading its replies while it keeps sending requests (some of them
+// refused by the framework itself), so that the answers of that connection pile up behind its writer; requests on
+// another connection must still be answered.
+func c08StalledClient(seed int64, maxpend int) core.Result {
+	var res core.Result
+	s, e, other, ok := c08setup(Config{Dotu: true, Msize: 8192, Maxpend: maxpend})
+	if !ok {
+		res.Inconclusive = "c08: setup failed"
+		return res
+	}
+	_ = s
+	c := e.c
+	c.Cli.Cap = 64 // a small receive buffer on the client side
+	c.PauseReads(true)
+	n := maxpend + 6
+	for i := 0; i < n; i++ {
+		fid := e.root
+		if i%2 == 1 {
+			fid = 9000 + uint32(i) // unknown fid: refused by the framework
+		}
+		_ = c.Send(&wire.Msg{Type: wire.Tstat, Fid: fid, Tag: e.next()})
+	}
+	// the requests are with the server once its reader is idle again (or blocked handing out work)
+	waitFor(2*time.Second, func() bool { return c.SrvE.ReaderIdle() })
+	res.Evals++
+	late := 0
+	for i := 0; i < 5 && late == 0; i++ {
+		for _, m := range []*wire.Msg{{Type: wire.Tstat, Fid: other.root}, {Type: wire.Tstat, Fid: 7777}, {Type: wire.Twalk, Fid: other.root, Newfid: 40}, {Type: wire.Tclunk, Fid: 40}} {
+			m.Tag = other.next()
+			if rp, err := other.c.Rpc(m, W); err != nil || rp.Msg == nil {
+				late++
+				break
+			}
+		}
+	}
+	c.PauseReads(false)
+	if late > 0 {
+		if rp, err := other.c.Rpc(&wire.Msg{Type: wire.Tstat, Fid: other.root, Tag: other.next()}, W); err == nil && rp.Msg != nil {
+			res.Violate(fmt.Sprintf("C08;head-of-line;stalled-client;other-conn;maxpend=%d", maxpend), fmt.Sprintf("%d requests on another connection were answered only after a client that had stopped reading its replies resumed", late), nil)
+		} else {
+			res.Inconclusive = "c08: other connection dead"
+		}
+	}
+	res.Count("requests_behind_a_stalled_client", int64(n))
+	res.Sig(fmt.Sprintf("stalled-client|mp=%d", maxpend))
 	e.c.Hangup()
 	other.c.Hangup()
 	return res
